@@ -220,13 +220,6 @@ impl<const CAP: usize> octseq::builder::OctetsBuilder for FixedBuf<CAP> {
         if slice.len() > CAP - self.len {
             return Err(octseq::builder::ShortBuf);
         }
-        if slice.len() > 8 {
-            // long slices: one memcpy instead of a long unwound loop
-            let end = self.len + slice.len();
-            self.data[self.len..end].copy_from_slice(slice);
-            self.len = end;
-            return Ok(());
-        }
         let mut i = 0;
         while i < slice.len() {
             self.data[self.len] = slice[i];
@@ -513,4 +506,80 @@ pub fn wire_names_eq(a: &[u8], b: &[u8]) -> bool {
         i += 1;
     }
     true
+}
+
+
+/// Variant of FixedBuf for code that appends long constant-size slices
+/// (RtypeBitmapBuilder appends 34-octet blocks): slices longer than 8 octets
+/// are copied with one memcpy instead of a long unwound loop.
+#[derive(Clone, Copy)]
+pub struct FixedBufM<const CAP: usize> {
+    pub data: [u8; CAP],
+    pub len: usize,
+}
+
+impl<const CAP: usize> AsRef<[u8]> for FixedBufM<CAP> {
+    fn as_ref(&self) -> &[u8] {
+        &self.data[..self.len]
+    }
+}
+
+impl<const CAP: usize> AsMut<[u8]> for FixedBufM<CAP> {
+    fn as_mut(&mut self) -> &mut [u8] {
+        &mut self.data[..self.len]
+    }
+}
+
+impl<const CAP: usize> octseq::builder::OctetsBuilder for FixedBufM<CAP> {
+    type AppendError = octseq::builder::ShortBuf;
+    fn append_slice(&mut self, slice: &[u8]) -> Result<(), Self::AppendError> {
+        if slice.len() > CAP - self.len {
+            return Err(octseq::builder::ShortBuf);
+        }
+        if slice.len() > 8 {
+            let end = self.len + slice.len();
+            self.data[self.len..end].copy_from_slice(slice);
+            self.len = end;
+            return Ok(());
+        }
+        let mut i = 0;
+        while i < slice.len() {
+            self.data[self.len] = slice[i];
+            self.len += 1;
+            i += 1;
+        }
+        Ok(())
+    }
+}
+
+impl<const CAP: usize> octseq::builder::EmptyBuilder for FixedBufM<CAP> {
+    fn empty() -> Self {
+        FixedBufM { data: [0; CAP], len: 0 }
+    }
+    fn with_capacity(_c: usize) -> Self {
+        Self::empty()
+    }
+}
+
+impl<const CAP: usize> octseq::builder::FreezeBuilder for FixedBufM<CAP> {
+    type Octets = Self;
+    fn freeze(self) -> Self {
+        self
+    }
+}
+
+impl<const CAP: usize> octseq::builder::Truncate for FixedBufM<CAP> {
+    fn truncate(&mut self, len: usize) {
+        if len < self.len {
+            self.len = len;
+        }
+    }
+}
+
+impl<const CAP: usize> domain::base::wire::Composer for FixedBufM<CAP> {}
+
+impl<const CAP: usize> FixedBufM<CAP> {
+    pub fn as_slice(&self) -> &[u8] {
+        &self.data[..self.len]
+    }
 }
